@@ -323,7 +323,7 @@ func ruleSP() Rule {
 				if t := info.Types[rs.X].Type; t == nil || t.String() != "string" {
 					return true
 				}
-				j, r := exprStr(rs.Key), exprStr(rs.Value)
+				j := exprStr(rs.Key)
 				ast.Inspect(rs.Body, func(x ast.Node) bool {
 					as, ok := x.(*ast.AssignStmt)
 					if !ok || len(as.Lhs) != 1 || len(as.Rhs) != 1 {
@@ -333,12 +333,12 @@ func ruleSP() Rule {
 					if !ok || be.Op != token.ADD || exprStr(be.X) != j {
 						return true
 					}
-					key := f.Name + "|" + exprStr(as.Lhs[0]) + " = " + exprStr(be)
+					key := f.Name + "|cut offset after a delimiter"
 					y := exprStr(be.Y)
-					if y == "utf8.RuneLen("+r+")" || y == "len(string("+r+"))" {
-						rr.OK(f, key, as.Pos(), "rune-width", "the cut offset advances by the delimiter's encoded width")
+					if decodedWidthAt(f, info, be.Y, rs) {
+						rr.OK(f, key, as.Pos(), "decoded-width", "the cut offset advances by the width DecodeRuneInString reports at the range position, which is what the range statement consumed")
 					} else {
-						rr.Bad(f, key, as.Pos(), "the cut offset advances by `"+y+"` instead of the rune's encoded width: a multi-byte IFS character leaves stray bytes in the next field")
+						rr.Bad(f, key, as.Pos(), "the cut offset advances by `"+y+"`, not by the number of bytes the range statement consumed at this position: for an invalid byte (ranged as U+FFFD, one byte) utf8.RuneLen gives 3, the offset overtakes the next delimiter and s[i:j] panics (IFS containing U+FFFD or an invalid byte, value \"\\xff\\xff\"); a constant leaves stray bytes of a multi-byte delimiter")
 					}
 					return true
 				})
@@ -498,4 +498,39 @@ func ruleBR1() Rule {
 				}
 			}
 		}}
+}
+
+// decodedWidthAt reports whether w is a local bound to the width result of
+// utf8.DecodeRuneInString(s[j:]) for the string and key of the range
+// statement rs.
+func decodedWidthAt(f *core.Func, info *types.Info, w ast.Expr, rs *ast.RangeStmt) bool {
+	id, ok := ast.Unparen(w).(*ast.Ident)
+	if !ok {
+		return false
+	}
+	obj := info.Uses[id]
+	found := false
+	ast.Inspect(rs.Body, func(n ast.Node) bool {
+		as, ok := n.(*ast.AssignStmt)
+		if !ok || len(as.Lhs) != 2 || len(as.Rhs) != 1 {
+			return true
+		}
+		wid, ok := as.Lhs[1].(*ast.Ident)
+		if !ok || (info.Defs[wid] != obj && info.Uses[wid] != obj) {
+			return true
+		}
+		call, ok := ast.Unparen(as.Rhs[0]).(*ast.CallExpr)
+		if !ok || calleeName(info, call) != "unicode/utf8.DecodeRuneInString" || len(call.Args) != 1 {
+			return true
+		}
+		se, ok := ast.Unparen(call.Args[0]).(*ast.SliceExpr)
+		if !ok || se.High != nil || se.Low == nil {
+			return true
+		}
+		if exprStr(se.X) == exprStr(rs.X) && exprStr(se.Low) == exprStr(rs.Key) {
+			found = true
+		}
+		return true
+	})
+	return found
 }
